@@ -11,6 +11,7 @@ import NodisVerif.Proofs.C08Step
 import NodisVerif.Model.Handler3
 import NodisVerif.Proofs.GeoAdd
 import NodisVerif.Proofs.GeoRange
+import NodisVerif.Proofs.F64NotNaN
 /-
   C04 — sorted sets stay ordered by (score, member); rank, range and score agree.
 
@@ -519,6 +520,20 @@ theorem geoadd_keeps_wf : ∀ (items : List (Bytes × F64)) (z : ZSet) (acc : In
 
 theorem geoadd_value_wf (z : ZSet) (h : z.WF) (items : List (Bytes × F64)) (hs : ∀ it ∈ items, F64.isNaN it.2 = false) :
     (zaddAll z items).1.WF := geoadd_keeps_wf items z 0 h hs
+
+/-- the score GEOADD stores is never NaN (`float64` of an unsigned integer: zero, or a packed pattern below +Inf's) -/
+theorem geoadd_score_not_nan (lon lat : F64) : F64.isNaN (geoScore lon lat) = false :=
+  Proofs.F64NotNaN.ofNat_not_nan _
+
+/-- so GEOADD keeps the sorted-set invariant, for every list of (member, longitude, latitude) - in range, on the
+    limits, outside (score 0), repeated members, equal points -/
+theorem geoadd_keeps_sorted_set (z : ZSet) (h : z.WF) (items : List (Bytes × F64 × F64)) :
+    (zaddAll z (items.map fun it => (it.1, geoScore it.2.1 it.2.2))).1.WF := by
+  apply geoadd_value_wf z h
+  intro it hit
+  rw [List.mem_map] at hit
+  obtain ⟨x, _, rfl⟩ := hit
+  exact geoadd_score_not_nan _ _
 
 /-- the handler: `GEOADD key lon lat member` with parsable coordinates and no NX / XX word hands
     `execCommand` exactly the closure of `ZADD key <float64(hash)> member` -/
